@@ -112,6 +112,9 @@ fn spec_for(c: &SvcCase) -> CoreSpec {
         speedtest: true,
         ping_hosts: vec![("ping.x".into(), 1)],
         speed_hosts: vec![("speed.x".into(), 2)],
+        // a reverse proxy behind /api of the main host (its origin is a closed port: any request
+        // that gets there fails visibly)
+        reverse_proxy: Some(("127.0.0.1:9".parse().unwrap(), "/api".into())),
         handshake_timeout: if c.stall_ms > 0 { Duration::from_secs(2) } else { Duration::from_secs(10) },
         h2_stream_window: if c.slow_reader { Some(70_000) } else { None },
         ..CoreSpec::default()
@@ -425,6 +428,11 @@ fn svc_strategy(big: bool) -> BoxedStrategy<SvcCase> {
         Just(("HEAD".to_string(), "/".to_string())),
         Just(("GET".to_string(), "/anything?x=1".to_string())),
         Just(("POST".to_string(), "/1mb.bin".to_string())),
+        // paths that belong to other channels of a main host: the marker still makes it a ping
+        Just(("GET".to_string(), "/speed/1mb.bin".to_string())),
+        Just(("GET".to_string(), "/speed/".to_string())),
+        Just(("POST".to_string(), "/speed/upload.html".to_string())),
+        Just(("GET".to_string(), "/api/resource".to_string())),
     ];
     let marker = prop_oneof![
         Just(("x-ping".to_string(), "1".to_string())),
@@ -475,7 +483,7 @@ impl Suite for ServiceSuite {
         if self.big {
             "speedtest at the documented bounds: downloads of 37, 99 and 100 MiB, uploads of 64 MiB, 120 MiB - 1 and 120 MiB, on a speedtest host and under /speed/ on the main host, HTTP/1.1 and HTTP/2, fast and slow readers; same oracle; every case non-trivial".into()
         } else {
-            "requests on a ping host, on the main host with a ping marker (x-ping: 1 / sec-fetch-mode: navigate), on a speedtest host and under /speed/ on the main host, over HTTP/1.1 and HTTP/2 in memory with an authenticator configured and no credentials sent: GET /Nmb.bin with N in {1,2,3,0,101,2^32,2^32+1,007,+5,1.5,'',-1,1e1}, POST /upload.html with Content-Length in {1..3e6, 120 MiB+1, 2^32+1, abc, absent, 0}, other methods and paths; client reads fast or with pauses (small HTTP/2 windows), or stalls for 5 s in the middle of a transfer while the session's idle timeout is 2 s (a running test must keep the session alive); oracle: ping => 200, zero body bytes, no forwarder call; canonical 1 <= N <= 100 => 200 and exactly N x 2^20 zero bytes; accepted upload => no response before the last body byte, then 200; everything else 400 (non-canonical spellings of in-range numbers and L = 0 are don't-care); never 407; non-trivial = N or L at or beyond a bound, or a marker on the main host".into()
+            "requests on a ping host, on the main host with a ping marker (x-ping: 1 / sec-fetch-mode: navigate; also on paths under /speed/ and under the reverse proxy's /api), on a speedtest host and under /speed/ on the main host, over HTTP/1.1 and HTTP/2 in memory with an authenticator configured and no credentials sent: GET /Nmb.bin with N in {1,2,3,0,101,2^32,2^32+1,007,+5,1.5,'',-1,1e1}, POST /upload.html with Content-Length in {1..3e6, 120 MiB+1, 2^32+1, abc, absent, 0}, other methods and paths; client reads fast or with pauses (small HTTP/2 windows), or stalls for 5 s in the middle of a transfer while the session's idle timeout is 2 s (a running test must keep the session alive); oracle: ping => 200, zero body bytes, no forwarder call; canonical 1 <= N <= 100 => 200 and exactly N x 2^20 zero bytes; accepted upload => no response before the last body byte, then 200; everything else 400 (non-canonical spellings of in-range numbers and L = 0 are don't-care); never 407; non-trivial = N or L at or beyond a bound, or a marker on the main host".into()
         }
     }
     fn strategy(&self, _: Tier) -> BoxedStrategy<SvcCase> {
@@ -500,6 +508,9 @@ impl Suite for ServiceSuite {
         if matches!(c.kind, Kind::PingMarker(..)) || want(c) == Want::BadRequest || self.big {
             v.push("nontrivial");
         }
+        if matches!(c.kind, Kind::PingMarker(..)) && (c.path.starts_with("/speed/") || c.path.starts_with("/api")) {
+            v.push("marker-on-another-channels-path");
+        }
         v.push(if c.h2 { "h2" } else { "h1" });
         if c.stall_ms > 0 && matches!(want(c), Want::Ok(n) if n > 0) {
             v.push("stalled-download");
@@ -513,7 +524,7 @@ impl Suite for ServiceSuite {
         if self.big {
             vec![]
         } else {
-            vec!["nontrivial", "must-refuse", "ping", "download", "upload", "h1", "h2", "stalled-download", "stalled-upload"]
+            vec!["nontrivial", "must-refuse", "ping", "download", "upload", "h1", "h2", "stalled-download", "stalled-upload", "marker-on-another-channels-path"]
         }
     }
     fn check(&self, c: &SvcCase) -> Verdict {
@@ -574,6 +585,145 @@ impl Suite for ServiceSuite {
                 );
                 ensure!(o.status == Some(200), "service:wrong-status", "{}: answered {:?} {:?}, want 200 after the upload", what, o.status, o.error);
                 ensure!(o.body == 0, "service:unexpected-body", "{}: {} body bytes after an upload", what, o.body);
+                Ok(())
+            }
+        }
+    }
+}
+
+// ---------------------------------------------------------------------------------------------
+// the same service channels over HTTP/3 (real QUIC listener)
+
+pub struct ServiceH3Suite;
+
+impl Suite for ServiceH3Suite {
+    type Case = SvcCase;
+    fn name(&self) -> &'static str {
+        "ping-speedtest-h3"
+    }
+    fn rule(&self) -> String {
+        "the requests of suite ping-speedtest (ping host, ping markers on the main host, speedtest host, /speed/ on the main host; GET /Nmb.bin and POST /upload.html around their bounds, other methods and paths) sent by a quiche HTTP/3 client to the real QUIC listener of Core::listen, without credentials; uploads are sent completely and the request stream finished; same oracle (200 with exactly N x 2^20 body bytes, 200 after an accepted upload, 400 otherwise, never 407, no forwarder call); non-trivial = N or L at or beyond a bound, or a marker on the main host".into()
+    }
+    fn strategy(&self, _: Tier) -> BoxedStrategy<SvcCase> {
+        svc_strategy(false)
+            .prop_map(|mut c| {
+                c.h2 = true; // HTTP/3 shares the "no chunked framing" expectations of HTTP/2
+                c.slow_reader = false;
+                c.stall_ms = 0;
+                // keep uploads small: the whole body travels through loopback QUIC
+                if c.upload > 300_000 {
+                    c.upload = 1 + c.upload % 300_000;
+                    c.content_length = Some(c.upload.to_string());
+                }
+                c
+            })
+            .boxed()
+    }
+    fn cases(&self, tier: Tier) -> u64 {
+        tier.pick(480, 12_000)
+    }
+    fn classify(&self, c: &SvcCase) -> Vec<&'static str> {
+        let mut v = vec![];
+        match want(c) {
+            Want::BadRequest => v.push("must-refuse"),
+            Want::DontCare => v.push("dont-care"),
+            Want::Ok(0) => v.push("ping"),
+            Want::Ok(_) => v.push("download"),
+            Want::Upload(_) => v.push("upload"),
+        }
+        if matches!(c.kind, Kind::PingMarker(..)) || want(c) == Want::BadRequest {
+            v.push("nontrivial");
+        }
+        v
+    }
+    fn required_classes(&self) -> Vec<&'static str> {
+        vec!["nontrivial", "must-refuse", "ping", "download", "upload"]
+    }
+    fn check(&self, c: &SvcCase) -> Verdict {
+        use crate::engine::quic::{h3_session, H3Request};
+        let w = want(c);
+        let c2 = c.clone();
+        let r = aio::block_on_real(async move {
+            let c = c2;
+            let spec = CoreSpec { quic: true, ..spec_for(&c) };
+            let net = crate::engine::networld::NetWorld::start(&spec).await?;
+            let scripted = Scripted::new(|_| Outcome::Echo);
+            let _g = scripted.install(&net.world);
+            let sni = match c.kind {
+                Kind::PingHost => "ping.x",
+                Kind::SpeedHost => "speed.x",
+                _ => "main.x",
+            };
+            let mut headers: Vec<(Vec<u8>, Vec<u8>)> = vec![
+                (b":method".to_vec(), c.method.as_bytes().to_vec()),
+                (b":scheme".to_vec(), b"https".to_vec()),
+                (b":authority".to_vec(), format!("{}:{}", sni, net.addr.port()).into_bytes()),
+                (b":path".to_vec(), c.path.as_bytes().to_vec()),
+            ];
+            if let Kind::PingMarker(n, v) = &c.kind {
+                headers.push((n.clone().into_bytes(), v.clone().into_bytes()));
+            }
+            if let Some(l) = &c.content_length {
+                headers.push((b"content-length".to_vec(), l.clone().into_bytes()));
+            }
+            let body = vec![0u8; if matches!(want(&c), Want::Upload(_)) { c.upload as usize } else { 0 }];
+            let has_body = !body.is_empty();
+            let req = H3Request { headers, body, fin: !has_body, fin_after_body: has_body };
+            let (conn, mut resps) = h3_session(net.addr, sni, &[req], Duration::from_secs(6)).await;
+            tokio::time::sleep(Duration::from_millis(10)).await;
+            Ok::<_, String>((conn, resps.remove(0), scripted.egress_count()))
+        });
+        let (conn, resp, egress) = match r {
+            Ok(x) => x,
+            Err(e) => return viol("harness:networld", e),
+        };
+        if let Some(e) = &conn.error {
+            if resp.status.is_none() {
+                return viol("harness:quic-client", e.clone());
+            }
+        }
+        let what = format!("h3 {} {} on {:?} (content-length {:?}, {} bytes uploaded)", c.method, c.path, c.kind, c.content_length, c.upload);
+        // a Content-Length that is not a number, or that disagrees with the body sent, makes the
+        // request malformed at the HTTP/3 layer
+        if c.content_length.as_deref().is_some_and(|l| l.parse::<u64>().is_err()) {
+            return Ok(());
+        }
+        ensure!(egress == 0, "service:egress", "{}: caused {} forwarder call(s)", what, egress);
+        ensure!(resp.status != Some(407), "service:credentials-demanded", "{}: answered 407", what);
+        match w {
+            Want::DontCare => Ok(()),
+            Want::BadRequest => {
+                // a POST that announces a body it never sends is malformed for the transport
+                if c.method == "POST" && c.content_length.as_deref().is_some_and(|l| l != "0") {
+                    ensure!(resp.status != Some(200), "speedtest:out-of-range-accepted", "{}: answered 200", what);
+                    return Ok(());
+                }
+                ensure!(
+                    resp.status == Some(400),
+                    if resp.status == Some(200) { "speedtest:out-of-range-accepted" } else { "service:wrong-status" },
+                    "{}: answered {:?} ({} body bytes), want 400",
+                    what,
+                    resp.status,
+                    resp.body.len()
+                );
+                Ok(())
+            }
+            Want::Ok(n) => {
+                ensure!(resp.status == Some(200), "service:wrong-status", "{}: answered {:?}, want 200", what, resp.status);
+                ensure!(
+                    resp.body.len() as u64 == n && resp.body.iter().all(|b| *b == 0),
+                    if n == 0 { "ping:body-not-empty" } else { "speedtest:wrong-download-size" },
+                    "{}: {} body bytes, want {}",
+                    what,
+                    resp.body.len(),
+                    n
+                );
+                ensure!(resp.ended && !resp.reset, "service:stream-not-ended", "{}: body not terminated", what);
+                Ok(())
+            }
+            Want::Upload(_) => {
+                ensure!(resp.status == Some(200), "service:wrong-status", "{}: answered {:?}, want 200 after the upload", what, resp.status);
+                ensure!(resp.body.is_empty(), "service:unexpected-body", "{}: {} body bytes after an upload", what, resp.body.len());
                 Ok(())
             }
         }
@@ -821,10 +971,11 @@ pub fn run(ctx: &mut Ctx) {
     super::replay_corpus(ctx, replay);
     ctx.run_suite(&ServiceSuite { big: false });
     ctx.run_suite(&RpSuite);
+    ctx.run_suite(&ServiceH3Suite);
     if ctx.tier == Tier::Thorough {
         ctx.run_suite(&ServiceSuite { big: true });
     }
-    ctx.assume("HTTP/3 is not driven in memory; reverse proxy over HTTP/2 is not permitted by the demultiplexer");
+    ctx.assume("HTTP/3: ping and speedtest run in real time against the real QUIC listener; the reverse proxy is not driven over HTTP/3; reverse proxy over HTTP/2 is not permitted by the demultiplexer");
     ctx.assume("download bodies are produced by the endpoint without Content-Length on HTTP/1.1, so their end is observed as the close of the connection");
 }
 
@@ -833,6 +984,7 @@ pub fn replay(ctx: &mut Ctx, suite: &str, case: &Value) -> bool {
         "ping-speedtest" => ctx.replay_suite(&ServiceSuite { big: false }, case),
         "ping-speedtest-bounds" => ctx.replay_suite(&ServiceSuite { big: true }, case),
         "reverse-proxy" => ctx.replay_suite(&RpSuite, case),
+        "ping-speedtest-h3" => ctx.replay_suite(&ServiceH3Suite, case),
         _ => false,
     }
 }
